@@ -126,3 +126,21 @@ Theorem C03_newton_post : forall St f atol fuel x0 st, newton St f atol fuel x0 
     (~ dfx == 0 -> Qabs fx <= Qabs dfx * (atol + rtol * Qabs x)).
 Proof. exact newton_post. Qed.
 Print Assumptions C03_newton_post.
+
+(** the wrapper as it is run against the implementation (explicit rounding of the iterate, recorded evaluation points): Ok st only
+    for a state built at a point whose Newton step passed the test; without such a point — e.g. 50 non-converged iterations —
+    the result is an error, never the state of the last iterate; with the identity rounding it is [newton]. *)
+Theorem C03_newton_r_post : forall St f atol rnd fuel x0 tr st,
+  fst (newton_r St f atol rnd fuel x0 tr) = Some st -> exists x, step_accepted St f atol rnd x st.
+Proof. exact newton_r_post. Qed.
+Print Assumptions C03_newton_r_post.
+
+Theorem C03_newton_never_ok_without_accepted_step : forall St f atol rnd fuel x0 tr,
+  (forall x st, ~ step_accepted St f atol rnd x st) -> fst (newton_r St f atol rnd fuel x0 tr) = None.
+Proof. exact newton_r_never_ok_without_accepted_step. Qed.
+Print Assumptions C03_newton_never_ok_without_accepted_step.
+
+Theorem C03_newton_r_is_newton : forall St f atol fuel x0 tr,
+  fst (newton_r St f atol (fun q => q) fuel x0 tr) = newton St f atol fuel x0.
+Proof. exact newton_r_id. Qed.
+Print Assumptions C03_newton_r_is_newton.
